@@ -306,7 +306,7 @@ std::unique_ptr<Payload> Packet::create(const PayloadType type, const uint8_t* d
                 return std::make_unique<CaptureModulePayload>(data, size);
             break;
         case PayloadType::ifStatMsg:
-            if (CaptureModulePayload::isValidPayload(data, size))
+            if (InterfacePayload::isValidPayload(data, size))
                 return std::make_unique<InterfacePayload>(data, size);
             break;
         default:
